@@ -492,6 +492,8 @@ HAND_PROGRAMS = [
     '#define ID(x) x\nenum { P = 5, Q = 7 };\n#define P Q + 1\n#define Q P * 2\nint first  = ID(Q);\nint second = P;\nint third  = ID(P);\n',
     '#define F(x) ((x) + 100)\n#define G F\n#define H (G - -1)\nenum { F = 7 };\nint plain = F - -1;\nint via_g = G - -1;\nint via_h = H;\nint call  = F(1);\nint call2 = G(2);\n',
     '#define F(x) ((x) + 100)\n#define TWICE(a) (a + a)\n#define PICK(a, b) (0 ? b : a)\nenum { F = 7, K = 1 };\nint twice = TWICE(F);\nint pick  = PICK(F, K);\nint both  = TWICE(F(1));\n',
+    # `#` in the replacement list of an OBJECT-like macro is an ordinary token
+    '#define HASH #\n#define HASHX # x\n#define STR(x) #x\n#define XSTR(x) STR(x)\nconst char *s1 = XSTR(HASH), *s2 = XSTR(HASHX), *s3 = STR(HASH), *s4 = XSTR(HASH HASH);\n',
     # two line splices in a row inside a definition, a splice right before the end of the definition, a splice inside a name
     '#define LONG(a, b) a + \\\n\\\nb\n#define TWO 2 \\\n\nint v = LONG(1, TWO);\nint w = LO\\\nNG(3,\\\n\\\n 4);\n',
 ]
